@@ -27,6 +27,7 @@ let rec mutate (mu : string) (tag : n list) (msg : n list) : n list * n list =
   | 't' -> (take (len - min len (int_of_string arg)) tag, msg)
   | 'h' -> (drop (int_of_string arg) tag, msg)
   | 'e' -> (tag @ unhex arg, msg)
+  | 'p' -> (unhex arg @ tag, msg)
   | 'x' -> (unhex arg, msg)
   | 'z' -> ([], msg)
   | 'm' -> (tag, unhex arg)
